@@ -120,6 +120,11 @@ def main(ctx):
         scfgs = [c for c in cfgs if not c["autofrag"] and c["mask"] != "noapply"]
         if tier != "thorough":
             scfgs = [c for c in scfgs if c["mask"] == "default"] if ei else scfgs
+        if ei in (0, 3):
+            # both sides cap the size of a decompressed message at the largest message of the
+            # alphabet: the cap is per message, sequences of messages are delivered all the same
+            scfgs = scfgs + [{"compress": True, "mask": "default", "autofrag": 0,
+                              "cap": 65536 if tier == "thorough" else 300}]
         for c in scfgs:
             for role in ("client", "server"):
                 for i in range(0, len(seqs), 60):
@@ -190,7 +195,8 @@ def build_pair(cfg, chooks=None, shooks=None):
     if cfg["autofrag"]:
         copts.update(autoFragmentSize=cfg["autofrag"])
         sopts.update(autoFragmentSize=cfg["autofrag"])
-    return ws.Pair(copts=copts, sopts=sopts, compress={} if cfg["compress"] else None,
+    return ws.Pair(copts=copts, sopts=sopts,
+                   compress=({"_cap": cfg["cap"]} if cfg.get("cap") else {}) if cfg["compress"] else None,
                    chooks=chooks, shooks=shooks)
 
 
@@ -338,8 +344,8 @@ def segmentations(stream_len, frames, tier, light):
 
 
 def _cfgid(cfg, role):
-    return "%s/%s/%s/af%d" % (role, "pmce" if cfg["compress"] else "plain", cfg["mask"],
-                              cfg["autofrag"])
+    return "%s/%s/%s/af%d" % (role, ("pmce+cap" if cfg.get("cap") else "pmce") if cfg["compress"] else "plain",
+                              cfg["mask"], cfg["autofrag"])
 
 
 def run_sender(cfg, role, seq, seed, dnc_stream=False):
@@ -514,7 +520,8 @@ class _RecvOnly:
             opts = dict(applyMask=False)
         if cfg["autofrag"]:
             opts["autoFragmentSize"] = cfg["autofrag"]
-        self.ep = ws.open_endpoint(role, opts, compress=True if cfg["compress"] else None)
+        self.ep = ws.open_endpoint(role, opts, compress=(
+            {"_cap": cfg["cap"]} if cfg.get("cap") else True) if cfg["compress"] else None)
         self.conn = self.ep.conn
 
     def escapes(self):
